@@ -496,6 +496,8 @@ class WriterThread(threading.Thread):
         self.queue = queue.SimpleQueue()
         self.write_indexes = [i for i in INDEXES.values() if i.enabled]
         self.processing = False
+        # ids of the events that are queued but not written yet
+        self.pending = set()
 
     def run(self):
         env = self.env
@@ -542,6 +544,8 @@ class WriterThread(threading.Thread):
             except Exception:
                 log.exception("writer")
             finally:
+                if operation == "add":
+                    self.pending.discard(args[0].id)
                 self.processing = False
 
     def _delete_event(self, txn, event: Event, log):
@@ -692,10 +696,14 @@ class LMDBStorage(BaseStorage):
 
         if not event.is_ephemeral:
             check_indexable(event)
+            if event.id in self.writer_thread.pending:
+                # the same event was just accepted (from another connection)
+                return event, False
             with self.db.begin(buffers=True) as txn:
                 if get_event_data(txn, event.id_bytes):
                     # already stored: nothing to write, nobody to notify
                     return event, False
+            self.writer_thread.pending.add(event.id)
             self.writer_queue.put(("add", [event]))
         await self.post_save(event)
         return event, True
